@@ -168,6 +168,7 @@ void Executor::op_file(const Op& op, TaskCtx& t) {
     else if (fk == "hugeexp") { out = data.substr(0, a) + "1e999999999 " + data.substr(a); }
     else if (fk == "gz") out = gzip(data);
     else if (fk == "gztrunc") { std::string z = gzip(data); out = z.substr(0, z.size() ? a % z.size() : 0); }
+    else if (fk == "insline") { size_t ls = data.rfind('\n', a ? a - 1 : 0); ls = ls == std::string::npos ? 0 : ls + 1; out = data.substr(0, ls) + hex_decode(op.get("hex", "")) + data.substr(ls); }
     else if (fk == "insert") { out = data.substr(0, a) + hex_decode(op.get("hex", "")) + data.substr(a); }
     spit(f, out);
     count("file_fault:" + fk); res_.nontrivial = true;
@@ -186,6 +187,10 @@ void Executor::op_file(const Op& op, TaskCtx& t) {
       else if (kind == "set") outcome = o->s->loadSettings(f) ? 1 : 0;
     } catch (const sut::Exc& e) { outcome = 2; exc = e.what; }
     count(std::string("read_") + kind + (outcome == 1 ? "_ok" : outcome == 0 ? "_failed" : "_exception"));
+    // a stream or memory exception is a way of reporting failure; a std::logic_error (std::stoi/std::stoul on a malformed token, substr out of
+    // range, ...) escaping from a reader is a parser that did not look at its input
+    if (outcome == 2 && (exc.find("invalid_argument") != std::string::npos || exc.find("out_of_range") != std::string::npos || exc.find("logic_error") != std::string::npos || exc.find("length_error") != std::string::npos))
+      viol("C13", "logic_error_escaped", "reading a ." + kind + " file: " + exc.substr(0, 160));
     observe_i(*o, outcome);
     if (kind == "lp" || kind == "mps") {
       if (outcome == 1) {
@@ -252,6 +257,8 @@ void Executor::op_file(const Op& op, TaskCtx& t) {
       double ov1 = st1 == sut::ST_OPTIMAL ? s.objValue() - s.getReal(P::r("obj_offset")) : 0, ov2 = st2 == sut::ST_OPTIMAL ? w.objValue() - w.getReal(P::r("obj_offset")) : 0;
       if (op.geti("strict", 1) == 0) { if (!(st1 == sut::ST_OPTIMAL || st1 == sut::ST_INFEASIBLE || st1 == sut::ST_UNBOUNDED || st1 == sut::ST_INForUNBD || st1 == sut::ST_ABORT_ITER || st1 == sut::ST_ABORT_TIME || st1 == sut::ST_ABORT_VALUE || st1 == sut::ST_ABORT_CYCLING || st1 == sut::ST_SINGULAR)) viol("C13", "object_unusable_after_read", std::string("after loading faulted settings the object cannot solve a good LP: ") + sut::status_name(st1)); }
       else if (st1 == sut::ST_ABORT_CYCLING || st1 == sut::ST_SINGULAR || st2 == sut::ST_ABORT_CYCLING || st2 == sut::ST_SINGULAR) count("post_solver_gave_up");
+      else if (st1 != st2 && [&] { auto nv = [](int x) { return x == sut::ST_INFEASIBLE || x == sut::ST_UNBOUNDED || x == sut::ST_INForUNBD; }; if (!nv(st1) || !nv(st2)) return false;   // primal and dual infeasible: either verdict is admissible (as in the C02/C16 oracles)
+                                   const model::RefResult rf = model::ref_solve(real_image(plan_.lps[gk])); return rf.status == model::REF_INFEASIBLE && rf.dual_known && rf.dual_infeasible; }()) count("pdinf_verdicts_equivalent");
       else if (st1 != st2 && [&] { const model::RefResult rf = model::ref_solve(real_image(plan_.lps[gk]));   // knife-edge LPs: the two objects hold different row splits of the same LP (file vs API) and may land on either side
                                    return (rf.status == model::REF_OPTIMAL && (rf.feas_fragile || rf.bounded_fragile)) || (rf.status != model::REF_OPTIMAL && rf.status != model::REF_UNKNOWN && rf.margin < 1e-4); }()) count("fragile_skipped");
       else if (st1 != st2 || (st1 == sut::ST_OPTIMAL && fabs(ov1 - ov2) > 1e-6 * (1 + fabs(ov2)))) {
